@@ -603,7 +603,8 @@ def _lint(ctx, prop):
         ang, nangf, nangc = angles.rule_ANG1(ctx, files)
         prt, nprt = lint.rule_PRT1(ctx, files)
         tw, ntw = lint.rule_TW1(ctx, files)
-        out += [sw, ov, n1, d3, cp, nb, zq, prt, tw, ang]
+        one, none_ = lint.rule_ONE1(ctx, files)
+        out += [sw, ov, n1, d3, cp, nb, zq, prt, tw, ang, one]
     return out
 
 
